@@ -532,7 +532,12 @@ func (c *Compiler) mapKeyCode(typ *runtime.Type) (Code, error) {
 	}
 	switch typ.Kind() {
 	case reflect.Ptr:
-		return c.ptrCode(typ)
+		if typ.Implements(marshalTextType) {
+			// *T where T has MarshalText: dereferenced, then encoded as text
+			return c.ptrCode(typ)
+		}
+		// any other pointer is not a key kind (as in encoding/json): its element would be
+		// written as a bare value ({3:1}), a nil key as {null:1}
 	case reflect.String:
 		return c.stringCode(typ, false)
 	case reflect.Int:
